@@ -10,7 +10,7 @@ ASSUMPTIONS = [
 ]
 OUTSIDE = ['pairs other than the listed shapes', 'the > 10 000 element parallel clause (no-OpenMP build; see C11/C12)']
 BOUNDS = {'quick': 'fine (9,8) <- (5,4), (7,8) <- (4,4), (5,4) <- (3,2), (7,12) <- (4,6); several splits on both levels; standard and extrapolated pair',
-          'thorough': 'fine nr in {5,7,9,11}, ntheta in {4,8,12}, all admissible splits on both levels'}
+          'thorough': 'fine nr in {5,7,9,11}, ntheta in {4,8,12}, splits -1 (automatic), 0, 2, 3, nr-1, nr on the fine and -1, 1, all-circles on the coarse level (the full cross product of splits did not finish in an hour)'}
 
 
 def jobs(tier, seed):
@@ -23,8 +23,8 @@ def jobs(tier, seed):
         for nr in (5, 7, 9, 11):
             for nt in (4, 8, 12):
                 cn = (nr + 1) // 2
-                for nCf in [-1] + list(range(0, nr + 1, 2)) + [3]:
-                    for nCc in (-1, 0, 1, 2, cn):
+                for nCf in sorted(set([-1, 0, 2, 3, nr - 1, nr])):
+                    for nCc in (-1, 1, cn):
                         shapes.append((nr, nt, nCf, nCc))
     for (nr, nt, nCf, nCc) in shapes:
         for ex in (0, 1):
